@@ -424,6 +424,24 @@ class SX(object):
                 return _struct_pack(fmt, a)
             if fname == 'unpack':
                 return _struct_unpack(fmt, a[0])
+            if fname == 'pack_into':
+                buf, off = a[0], a[1]
+                if isinstance(off, SymInt):
+                    off = off.concretize()
+                it = items_of(_struct_pack(fmt, a[2:]))
+                if off + len(it) > len(buf):
+                    raise _struct.error('pack_into requires a buffer of at least %d bytes' % (off + len(it)))
+                if isinstance(buf, (SymByteArray, SymMemoryView)):
+                    buf[off:off + len(it)] = it
+                elif symdata._concrete(it):
+                    buf[off:off + len(it)] = _bytes(it)
+                else:
+                    raise EngineLimit('struct.pack_into of symbolic values into a native buffer')
+                return None
+            if fname == 'unpack_from':
+                off = a[1] if len(a) > 1 else k.get('offset', 0)
+                n = _struct.calcsize(fmt)
+                return _struct_unpack(fmt, mk_bytes(items_of(a[0])[off:off + n]))
             raise EngineLimit('struct.%s with symbolic argument' % fname)
         if isinstance(obj, (list, dict, set, tuple, types.GeneratorType)) or \
                 isinstance(f, (types.FunctionType, types.MethodType)) or isinstance(obj, type):
